@@ -66,6 +66,31 @@ def count_leaf(ctx, db, est):
     return None
 
 
+def leaf_type(db, adt_path, leaf):
+    """type JSON of the state leaf `a.b.c[3]` of struct `adt_path` (None when it cannot be resolved)"""
+    import re as _re
+    ty = {"k": "adt", "path": adt_path, "args": []}
+    for part in leaf.split("."):
+        m_ = _re.match(r"^(\w+)((?:\[\d+\])*)$", part)
+        if not m_:
+            return None
+        name, idx = m_.group(1), m_.group(2)
+        if ty.get("k") != "adt":
+            return None
+        a = db.adts.get(ty["path"])
+        if a is None or a["kind"] != "struct":
+            return None
+        f = [x for x in a["variants"][0]["fields"] if x["name"] == name]
+        if not f:
+            return None
+        ty = f[0]["ty"]
+        for _ in _re.findall(r"\[\d+\]", idx):
+            if ty.get("k") != "array":
+                return None
+            ty = ty["elem"]
+    return ty
+
+
 def add_arity(db, est):
     f = db.fns.get(est.add)
     return f["arg_count"] - 1 if f else 0
@@ -84,6 +109,15 @@ def r_count(ctx, db, est, cfgname, expect_merge=True, check_add=True):
         ctx.ob("R-COUNT", "len-leaf", est.path, "-", False,
                "cannot identify the integer state that len() returns", inc=True)
         return None
+    # (0) capacity: len() is a u64; the stored counter must not be narrower (a count of 2^32 is reached by
+    # 32 doubling merges, 2^31 observations by a long stream)
+    lt = leaf_type(db, est.path, leaf)
+    if lt is not None and lt.get("k") == "prim":
+        wide = lt.get("s") in ("u64", "i64", "usize", "isize", "u128", "i128")
+        ctx.ob("R-COUNT", "counter-width", est.path, "-", wide,
+               "the sample counter `%s` is stored as %s%s" % (leaf, lt.get("s"), "" if wide else
+                                                              ": narrower than the u64 that len() reports; it overflows (panic in debug builds, wrap-around in release builds) for sample sizes a u64 count admits"),
+               nontrivial=False)
     # (i) add
     addp = est.add
     if addp and check_add:
@@ -1127,7 +1161,9 @@ def r_binom(ctx, db, moments_path, N):
         ctx.ob("R-BINOM", "present", moments_path, "-", False, "binomial iterator of %s not found (%s)" % (moments_path, newp), inc=True)
         return 0
     n = 0
-    for p in range(0, N + 1):
+    # rows up to N are used by this instantiation; rows up to 62 are what the u64 recurrence of the
+    # pinned tree computes without overflow, i.e. what any other legal `define_moments!(T, N)` relies on
+    for p in range(0, max(N, 62) + 1):
         m = Machine(db, [], Config(release=False))
         try:
             it = Cell(call(m, newp, [p]), root="it")
